@@ -363,6 +363,8 @@ pub struct Suites {
     ftiny: Suite<FiniteField<{ primes::U32_TINY }>>,
     f64_: Suite<FiniteField<{ primes::U64_LARGEST }>>,
     f128: Suite<FiniteField<{ primes::U128_LARGE_1 }>>,
+    /// the largest modulus the type documents (P < 2^127): the Mersenne prime 2^127 - 1
+    fm127: Suite<FiniteField<{ M127 }>>,
     boolean: Suite<BooleanSemiring>,
     eu: Suite<ExpectedUtility>,
     cx: Suite<Complex>,
@@ -380,6 +382,7 @@ impl Suites {
             ftiny: Suite::new(n, &FiniteField::<{ primes::U32_TINY }>::alphabet(), s * big),
             f64_: Suite::new(n, &FiniteField::<{ primes::U64_LARGEST }>::alphabet(), s * big),
             f128: Suite::new(n, &FiniteField::<{ primes::U128_LARGE_1 }>::alphabet(), s * big * 4),
+            fm127: Suite::new(n, &FiniteField::<{ M127 }>::alphabet(), s * big * 4),
             boolean: Suite::new(n, &BooleanSemiring::alphabet(), s),
             eu: Suite::new(n, &ExpectedUtility::alphabet(), s),
             cx: Suite::new(n, &Complex::alphabet(), s),
@@ -404,6 +407,9 @@ pub fn check_all<'a, P: DDNNFPtr<'a>>(p: P, f: TT, n: usize, s: &Suites, evals: 
         return Some(e);
     }
     if let Some(e) = check_ptr(p, f, n, &s.f128, evals) {
+        return Some(e);
+    }
+    if let Some(e) = check_ptr(p, f, n, &s.fm127, evals) {
         return Some(e);
     }
     if let Some(e) = check_ptr(p, f, n, &s.boolean, evals) {
@@ -615,6 +621,9 @@ fn run_rep(rep: &Rep, n: usize, ctx: &Ctx, fstep: usize) -> Report {
     r
 }
 
+/// 2^127 - 1 (prime), the upper end of the moduli the finite-field type documents
+pub const M127: u128 = (1u128 << 127) - 1;
+
 pub fn run(ctx: &Ctx) -> Report {
     let mut rep = Report::new(
         "every Boolean function of n variables (n = 3; n = 4 in thorough; n = 1, 2 always) in every representation (BDD in every order, SDD in every vtree, top-down decision-DNNF in every order x both stores; both polarities of every pointer, nodes shared inside one builder) x 10 semiring instances (real, 4 finite fields incl. a ~2^96 prime, Boolean, expected utility, complex, rational, polynomial) x the full product of a 3-4 element alphabet of weights with low + high = one; plus BDDs with unnormalised integer weights against the depends-on recursion; plus evaluate() on every assignment; oracle = the harness's own exact arithmetic; distinct = (representation, function, polarity); non-trivial = non-constant function",
@@ -644,7 +653,7 @@ pub fn run(ctx: &Ctx) -> Report {
     rep.merge(r);
     rep.distinct_nontrivial = rep.transitions;
     rep.bound("functions", json!(match ctx.tier { Tier::Quick => "all of F(1), F(2), F(3)", Tier::Thorough => "all of F(1..3); every 8th function of F(4) for the 24 BDD orders, every 32nd for the 120 SDD vtrees" }));
-    rep.bound("semirings", json!(["RealSemiring", "FiniteField<7>", "FiniteField<U32_TINY>", "FiniteField<U64_LARGEST>", "FiniteField<U128_LARGE_1>", "BooleanSemiring", "ExpectedUtility", "Complex", "RationalSemiring(0/1 weights)", "Polynomial<RealSemiring>"]));
+    rep.bound("semirings", json!(["RealSemiring", "FiniteField<7>", "FiniteField<U32_TINY>", "FiniteField<U64_LARGEST>", "FiniteField<U128_LARGE_1>", "FiniteField<2^127-1>", "BooleanSemiring", "ExpectedUtility", "Complex", "RationalSemiring(0/1 weights)", "Polynomial<RealSemiring>"]));
     rep.sample(json!({"rep": {"sdd_vtree": "((0 2) 1)"}, "function": "0x96", "semiring": "Polynomial<RealSemiring>", "weights": "x_i -> (1 - x, x)"}));
     rep.assumptions.push("weights are drawn from alphabets on which f64 arithmetic is exact; polynomial results are compared coefficient-wise (the len field is a representation detail)".into());
     rep.assumptions.push("RationalSemiring can only be constructed as 0 or 1 from outside the crate".into());
